@@ -862,7 +862,7 @@ example : C19Tas.reflect1 5 (-1) = 0 ∧ C19Tas.reflect1 5 5 = 4 ∧ C19Tas.refl
 `Σ_i Σ_j p_x(i) Q(i,j) x_i x_j ≤ Σ_i p_x(i) x_i²` (weighted Cauchy–Schwarz per column), and therefore every eigenvalue
 `λ` of `Q` (`Q x = λ x` with an eigenvector not supported on empty levels only) satisfies `0 ≤ λ ≤ 1`. Together with
 `C19_haralick_Q` (`Q·1 = 1`): 1 is the largest eigenvalue and the maximal correlation coefficient — the square root of
-the second largest — lies in `[0, 1]` (the value 1.2247 returned before fix `34d11a6` was impossible). -/
+the second largest — lies in `[0, 1]` (the value 1.2247 returned before fix `73cd2a6` was impossible). -/
 theorem C19_haralick_Q_spectrum {α : Type} [Field α] [LinearOrder α] [IsStrictOrderedRing α]
     (m : Nat) (c : List Nat) (x : Nat → α) :
     let P := matAt (0 : α) m (normMat (Nat.cast : Nat → α) c)
